@@ -307,8 +307,10 @@ func ruleC01R5(c *Ctx) {
 		"the awaited Stopped() belongs to the worker that this function starts", "the awaited Stopped() does not belong to the processing worker started here")
 	// all Destroy sites are inside the continuation (or closures nested in it)
 	inCont := map[*ssa.Function]bool{}
-	for _, f := range withAnons(cont) {
-		inCont[f] = true
+	for _, g := range c.regionOf(cont) {
+		for _, f := range withAnons(g) {
+			inCont[f] = true
+		}
 	}
 	for _, s := range sites {
 		c.check(inCont[s.Parent()], "C01.R5", s.Parent(), "call of ChunkBufferer.Destroy", s.Pos(),
@@ -319,12 +321,27 @@ func ruleC01R5(c *Ctx) {
 	sD.AllowEmptyGuards = false
 	c.mustBeforeReturn("C01.R5", cont, entryOf(cont), sD, "continuation destroys every bufferer", "ChunkBufferer.Destroy for each output", cont.Pos(), nil)
 	var onStopped []ssa.CallInstruction
-	for _, s := range callsIn(cont) {
-		if p, ok := resolve(s.Common().Value).(*ssa.Parameter); ok && isPlainCallback(p.Type()) {
+	for _, s := range c.callsInR(cont) {
+		if p, ok := c.resolveR(cont, s.Common().Value).(*ssa.Parameter); ok && isPlainCallback(p.Type()) && !c.helpersOf(cont)[p.Parent()] {
 			onStopped = append(onStopped, s)
 		}
 	}
-	evD := sD.mustEvents(cont, nil, 0)
+	// the events are taken where they stand: a call of a private helper that destroys the bufferers is replaced by the
+	// helper's own events, so that the order is decided inside the helper too
+	evD := map[ssa.Instruction]bool{}
+	var expand func(f *ssa.Function, depth int)
+	expand = func(f *ssa.Function, depth int) {
+		for in := range sD.mustEvents(f, nil, 0) {
+			if ci, ok := in.(ssa.CallInstruction); ok && depth < 4 {
+				if g := ci.Common().StaticCallee(); g != nil && c.helpersOf(cont)[g] {
+					expand(g, depth+1)
+					continue
+				}
+			}
+			evD[in] = true
+		}
+	}
+	expand(cont, 0)
 	c.checkOrderL("C01.R5", cont, "Destroy of every bufferer", evD, "onStopped()", callInstrSet(onStopped))
 	// the registration precedes the start of the worker
 	c.checkOrder("C01.R5", starter, "Stopped().Next(...)", callInstrSet(nextCalls), "procWorker.Start()", callInstrSet(startCalls))
@@ -524,8 +541,13 @@ func ruleC01R8(c *Ctx) {
 
 	starter := returnedClosure(c.P.Fn(aPrepPipe))
 	// inside the per-output closure: bufferer.Start before consumer.Start
+	// (a function literal handed to lo.Map, or a private helper of the starter called per output)
 	var perOut *ssa.Function
-	for _, f := range starter.AnonFuncs {
+	perOutCands := append([]*ssa.Function{}, starter.AnonFuncs...)
+	for _, h := range c.regionOf(starter)[1:] {
+		perOutCands = append(perOutCands, h)
+	}
+	for _, f := range perOutCands {
 		if len(sitesWhere(f, func(s ssa.CallInstruction) bool { return invokeOf(s, "base/bconfig.ChunkBufferConfig", "NewBufferer") })) > 0 {
 			perOut = f
 		}
@@ -547,6 +569,9 @@ func ruleC01R8(c *Ctx) {
 					mapCalls = append(mapCalls, s)
 				}
 			}
+			if s.Common().StaticCallee() == perOut {
+				mapCalls = append(mapCalls, s)
+			}
 		}
 		var ws []ssa.CallInstruction
 		for _, s := range callsIn(starter) {
@@ -554,7 +579,7 @@ func ruleC01R8(c *Ctx) {
 				ws = append(ws, s)
 			}
 		}
-		c.checkOrder("C01.R8", starter, "per-output setup (buffer recovery, consumer start)", callInstrSet(mapCalls), "procWorker.Start", callInstrSet(ws))
+		c.checkOrderL("C01.R8", starter, "per-output setup (buffer recovery, consumer start)", callInstrSet(mapCalls), "procWorker.Start", callInstrSet(ws))
 	}
 
 	// every output pair's existing queue ids are listed and fed to NewOrchestrator
